@@ -234,8 +234,14 @@ type c03Case struct {
 
 // renderText renders t under decoration nd through a fresh wrapper.
 func renderText(t tabular.Table, nd namedDeco) (string, error) {
+	if (len(nd.name)+t.NRows()*3+t.NColumns())%5 == 0 {
+		// the wrapper that renders is a by-value copy of what Wrap returned (a struct field, a slice element)
+		cp := *texttable.Wrap(t)
+		return cp.SetDecoration(nd.d).Render()
+	}
 	return texttable.Wrap(t).SetDecoration(nd.d).Render()
 }
+
 
 func c03Check(c *Ctx, spec *gen.TableSpec, decos []namedDeco, st *stage, sample bool) {
 	t0 := tabular.New()
